@@ -174,6 +174,41 @@ def guard_rules(ctx):
         ctx.require_try_call(rule, f, Call("ok_or_else", Mentions(Call("checked_add", Arg(2), Lit(1)))), desc="L1BoundSum::new: bits*(measurement_len+1) overflow -> Err")
     except Skip:
         pass
+    # --- Rational::try_from(f32): special floats are refused, and a negative value is refused by the *fallible* signed -> unsigned
+    # conversion of the numerator (taking the magnitude instead would accept -2.0 as 2)
+    try:
+        f = ctx.fn(rule, name="try_from", trait="TryFrom", self_adt="dp::Rational", id_re=r"TryFrom<f32>")
+        g = ctx.guards(f)
+        oks = [rd for rd in g.retdefs if rd.kind == "ok"]
+        # (the None arm is spelled `Err(..)?`: its never-taken Continue side is a non-refusing return of the CFG, so the guards are
+        # stated on the Ok(..) return instead of on "every accepting return")
+        none = [e for e in g.edges if e.cond[0] == "variant" and e.cond[3] and
+                ((e.cond[2] == "None" and Call("from_float", Arg(1))(e.cond[1])) or
+                 (e.cond[2] == "Break" and Mentions(Or(Call("ok_or", Call("from_float", Arg(1))), Call("ok_or_else", Call("from_float", Arg(1)))))(e.cond[1])))]
+        key = "%s:%s:special-floats-refused" % (rule, f.id)
+        if len(none) == 1 and oks and not any(rd.kind == "ok" for rd in none[0].leads):
+            ctx.ok(rule, key, "from_float(value) is None (NaN / infinite) cannot reach the Ok return", loc=f.loc)
+        else:
+            ctx.bad(rule, key, "Rational::try_from(f32): NaN / infinite are not refused", loc=f.loc)
+        key = "%s:%s:negative-refused" % (rule, f.id)
+        brk = [e for e in g.edges if e.cond[0] == "variant" and e.cond[2] == "Break" and e.cond[3] and
+               Mentions(Call("try_into", Mentions(Call("numer", Mentions(Call("from_float", Arg(1)))))))(e.cond[1])
+               and e.leads and set(rd.kind for rd in e.leads) <= {"err"}]
+        if brk and oks and all(f.body.dominates(brk[0].block, rd.block) for rd in oks):
+            ctx.ok(rule, key, "the numerator's signed -> unsigned conversion is fallible, propagated, and dominates the Ok return", loc=f.loc)
+        else:
+            ctx.bad(rule, key, "Rational::try_from(f32): a negative value is not refused (no propagated fallible conversion of the numerator)", loc=f.loc)
+        key = "%s:%s:no-sign-dropping" % (rule, f.id)
+        drops = [t.callee.name for bi, t in f.body.calls() if t.callee.name in ("magnitude", "abs", "unsigned_abs", "into_parts", "to_biguint", "iter_u32_digits", "to_u32_digits")]
+        if not drops:
+            ctx.ok(rule, key, "the sign of the float is never discarded", loc=f.loc)
+        else:
+            ctx.bad(rule, key, "Rational::try_from(f32) discards the sign (%s): negative values would be accepted as their absolute value" % drops, loc=f.loc)
+    except Skip:
+        pass
+    # --- the aggregation-parameter constructor accepts every length 1..=2^16 and refuses the rest (shared with C20 / C03)
+    from rules import c20
+    c20.constructor_rules(ctx, "R-C16.G.aggparam")
     # --- encoders
     G(ctx, rule, dict(name="encode_measurement", trait="Type", self_adt=T + "Sum"), "Gt", Arg(2), Field(Arg(1), "max_measurement"), "Sum: summand > max_measurement -> Err")
     G(ctx, rule, dict(name="encode_measurement", trait="Type", self_adt=T + "Histogram"), "Ge", Arg(2), Field(Arg(1), "length"), "Histogram: bucket >= length -> Err")
